@@ -10,8 +10,8 @@ from concurrent.futures import ThreadPoolExecutor
 
 VERIF = os.environ.get("VERIF_ROOT") or os.path.dirname(os.path.dirname(os.path.dirname(os.path.abspath(__file__))))
 SPEC = VERIF + "/spec"
-HARNESS = VERIF + "/harness"
-OUT = VERIF + "/out"
+HARNESS = os.environ.get("ABY_HARNESS_DIR") or (VERIF + "/harness")
+OUT = os.environ.get("ABY_OUT") or (VERIF + "/out")
 JAVA = ["java", "-XX:+UseSerialGC", "-cp",
         "/opt/veriftools/tla/tla2tools.jar:/opt/veriftools/tla/CommunityModules-deps.jar"]
 NCPU = os.cpu_count() or 4
